@@ -1722,7 +1722,13 @@ class BaseImage(metaclass=ImageMeta):
                         "an animation"
                     )
 
-            return renderer(self._get_image(), *args, **kwargs)
+            img = self._get_image()
+            try:
+                return renderer(img, *args, **kwargs)
+            except BaseException:
+                # The renderer may not have got to the point of closing the image
+                self._close_image(img)
+                raise
 
         finally:
             if isinstance(_size, Size):
